@@ -3,6 +3,10 @@
  *  - no over-admission: at every successful wait/trywait:  succeeded <= V0 + posts begun
  *  - trywait never blocks and never succeeds without a unit
  *  - no lost post: at quiescence no fiber is parked in wait while units are available; value == V0 + posts - successful waits */
+#ifdef ABSTRACT_QUEUE
+#include "mpmc_fifo.h"
+#include "abstract_mpmc.h"
+#endif
 #include "fiber_manager.c"
 #ifndef NWAIT
 #define NWAIT 1
